@@ -473,6 +473,7 @@ class Driver:
         # deltas since the last emitted event
         ev.update(self.deltas())
         ev["g"] = self.guard_state()
+        ev["rs"] = int(getattr(self.fx, "resolution", 0))     # fixedpoint.resolution in force when the call was made
         self.regsnap.append(ev["res"] if out == "ok" else [])
         ev["chg"] = self.changes(skip=len(self.regs) - 1)
         self.emit(ev)
